@@ -11,6 +11,7 @@ import gen_docs
 import properties as P
 import streams as S
 from corr import Corr, canon, differential, rng, run_impl_batch
+from model import run_model
 from properties import (DIALECT_SOURCES, TABLE_SOURCES, collect, compile_stream, e2e, erase, impl_mod, nt_accepted,
                         nt_rejected, oracle, outcome, pj_pickles, prop, std_e2e, walk)
 
@@ -58,7 +59,7 @@ prop("C05",
 
 
 def pk_sources(p):
-    return {"nodes": p["astNodeIds"], "uri": p["uri"], "language": p["language"], "nsteps_zero": len(p["steps"]) == 0}
+    return {"nodes": p["astNodeIds"], "uri": p["uri"], "language": p["language"], "name": p["name"], "nsteps_zero": len(p["steps"]) == 0}
 
 
 def pk_steps(p):
@@ -262,6 +263,17 @@ prop("C12", streams=[lambda ctx: P.regression_stream("C12"), P.unit_table_cells,
      rule="table_cells exhaustively over {|,\\,n,blank,a}^<=7 plus exotic blanks; cell values and ragged-table errors of parsed documents")
 
 
+def c12_ragged(ctx):
+    """every cell-count sequence of 1..4 rows x 1..4 cells, as data table and as examples table"""
+    srcs = []
+    for n in range(1, 5):
+        for counts in itertools.product(range(1, 5), repeat=n):
+            rows = "".join("      |" + "|".join(" c%d " % j for j in range(k)) + "|\n" for k in counts)
+            srcs.append("Feature: f\n  Scenario: s\n    Given a table\n" + rows + "    And more\n")
+            srcs.append("Feature: f\n  Scenario Outline: o\n    Given <c0>\n    Examples:\n" + rows + "\n  @t\n  Scenario: next\n")
+    return e2e("cell-count-sequences", srcs, P.p_cells, modes=(False, True), exhaustive=True, nontrivial=nt_rejected)
+
+
 def o_roundtrip(ctx):
     impl = impl_mod()
     r = rng("c12rt")
@@ -283,6 +295,7 @@ def o_roundtrip(ctx):
 
 
 P.PROPS["C12"]["streams"].append(o_roundtrip)
+P.PROPS["C12"]["streams"].insert(2, c12_ragged)
 
 # ---------------------------------------------------------------- C13
 
@@ -411,6 +424,10 @@ PERTURB = [
     "#language: em\n📚: f\n  📕: s\n    😐x\n",
     "Feature: f\n  Background:\n    Given b\n  Rule: r\n    Background:\n      Given rb\n    Example: e\n      When w\n",
     "Feature: f\n\n  desc\n  Scenario: s\n    Given g\n      | a | b |\n      | c |\n",
+    # a builder error raised right after a successful look-ahead (tokens still queued when a stop-mode parse aborts)
+    "Feature: f\n  Scenario: s\n    Given g\n      | a | b |\n      | c |\n  @tag\n  # c\n  Scenario: t\n    Given h\n",
+    "Feature: f\n  Scenario Outline: o\n    Given <a>\n    Examples:\n      | a |\n      | 1 | 2 |\n    @e1\n\n    @e2\n    Examples:\n      | a |\n",
+    "Feature: d\n      indented description\n  more\n  Scenario: s\n        deep description\n    Given g\n",
 ]
 
 
@@ -505,7 +522,8 @@ def o_interleave(ctx):
     import threading
     impl = impl_mod()
     small = [PERTURB[0], PERTURB[1], PERTURB[3], PERTURB[9], "Feature: a\n@t\n\nScenario: b\nGiven c\n", "#language: ja\n機能: f\n",
-             "Feature: z\n  Scenario Outline: o\n  Given <x>\n  Examples:\n  |x|\n  |1|\n"]
+             "Feature: z\n  Scenario Outline: o\n  Given <x>\n  Examples:\n  |x|\n  |1|\n",
+             "Feature: q\n  Scenario: a\n    Given x\n  @t1\n  # c\n\n  @t2\n  Scenario: b\n    Given y\n  @t3\n  Scenario: c\n"]
     alone = {s: impl.parse(False, "en", s) for s in small}
     r = rng("c15i")
 
@@ -528,20 +546,21 @@ def o_interleave(ctx):
                 live = [i for i in range(n) if not done[i]]
                 turn["who"] = live[0] if live else None
 
-        class YScanner(impl.StringScanner):
-            def __init__(self, text, me):
-                super().__init__(text)
-                self.me = me
+        def handoff(me):
+            with cv:
+                advance()
+                cv.notify_all()
+                while turn["who"] != me:
+                    cv.wait(timeout=5)
+                    if turn["who"] is None:
+                        break
 
-            def read(self):
-                with cv:
-                    advance()
-                    cv.notify_all()
-                    while turn["who"] != self.me:
-                        cv.wait(timeout=5)
-                        if turn["who"] is None:
-                            break
-                return super().read()
+        class YParser(impl.Parser):
+            """switches to another parser before every token read (queue or scanner): token-read granularity"""
+
+            def read_token(self, context):
+                handoff(self.me)
+                return super().read_token(context)
 
         def worker(i):
             with cv:
@@ -549,10 +568,11 @@ def o_interleave(ctx):
                     cv.wait(timeout=5)
             m = impl.CountingMatcher("en")
             g = impl.IdGenerator()
-            p = impl.Parser(impl.AstBuilder(g))
+            p = YParser(impl.AstBuilder(g))
+            p.me = i
             try:
                 try:
-                    doc = p.parse(YScanner(srcs[i], i), m)
+                    doc = p.parse(impl.StringScanner(srcs[i]), m)
                     results[i] = {"ok": doc}
                 except impl.CompositeParserException as e:
                     results[i] = {"errors": [impl.err_json(x) for x in e.errors]}
@@ -1017,11 +1037,12 @@ def o_c17(ctx):
         acc = []
         for i, s in enumerate(srcs):
             ge = impl.GherkinEvents(impl.GherkinEvents.Options(print_source=True, print_ast=True, print_pickles=True))
-            ge.id_generator._id_counter = idc
+            for _ in range(idc):
+                ge.id_generator.get_next_id()
             orig = ge.parser.parse
             ge.parser.parse = lambda x, m=None, orig=orig: orig(impl.StringScanner(x), m)
             acc.extend(copy.deepcopy(x) for x in ge.enum({"source": {"uri": "u%d" % i, "data": s, "mediaType": "text/x.cucumber.gherkin+plain"}}))
-            idc = ge.id_generator._id_counter
+            idc = impl.read_counter(ge.id_generator)
         if canon(whole.get("envelopes")) != canon(acc):
             return {"what": "a source's envelopes depend on more than the source and the running id counter"}
         return None
@@ -1130,3 +1151,146 @@ def o_c18(ctx):
 prop("C18", streams=[P.stub_sequences, P.stub_probe, c18_tokens, o_c18], sources=["parser.py"],
      rule="builder events of the real Parser with stub matcher on all kind sequences up to the bound (recording builder), token listings model vs implementation, "
           "reference .tokens listings of testdata/good, delivery oracle (one token per line in order, then one EOF) on real text")
+
+
+# ---------------------------------------------------------------- search (table-level obligations)
+
+def table_walks(n, maxlen, salt):
+    """kind sequences produced by random walks over the regenerated transition table (so that
+    transitions present in the current parser.py are exercised), with skip-token noise"""
+    from common import GEN
+    r = rng(salt)
+    try:
+        tj = json.load(open(os.path.join(GEN, "table.json")))
+        table = {int(k): v for k, v in tj["table"].items()}
+        start = tj["start_state"]
+    except Exception:  # noqa
+        table, start = None, 0
+    out = []
+    for _ in range(n):
+        w = []
+        if table is None:
+            w = [r.choice(S.KINDS[1:]) for _ in range(r.randint(1, maxlen))]
+        else:
+            s = start
+            while len(w) < maxlen and s in table:
+                tests = table[s][0]
+                k, la, prods, tgt = r.choice(tests)
+                if k == "EOF":
+                    break
+                w.append(k)
+                s = tgt
+                while r.random() < 0.15 and len(w) < maxlen:
+                    w.append(r.choice(["Comment", "Empty", "TagLine"]))
+        out.append(w)
+    return out
+
+
+def transition_cover():
+    """one kind sequence per transition of the regenerated table: shortest path to the source state,
+    the transition's kind, shortest completion to the end state (guards ignored: a heuristic generator)"""
+    from common import GEN
+    try:
+        tj = json.load(open(os.path.join(GEN, "table.json")))
+        table = {int(k): v for k, v in tj["table"].items()}
+        start = tj["start_state"]
+    except Exception:  # noqa
+        return []
+    path = {start: []}
+    todo = [start]
+    while todo:
+        s = todo.pop(0)
+        for k, la, prods, tgt in table.get(s, [[], [], 0])[0]:
+            if k != "EOF" and tgt not in path:
+                path[tgt] = path[s] + [k]
+                todo.append(tgt)
+    # completion: backward BFS to a state with an EOF test
+    comp = {s: [] for s in table if any(t[0] == "EOF" for t in table[s][0])}
+    changed = True
+    while changed:
+        changed = False
+        for s in table:
+            for k, la, prods, tgt in table[s][0]:
+                if k != "EOF" and tgt in comp and (s not in comp or len(comp[s]) > len(comp[tgt]) + 1):
+                    comp[s] = [k] + comp[tgt]
+                    changed = True
+    out = []
+    for s in sorted(path):
+        for k, la, prods, tgt in table[s][0]:
+            if k == "EOF":
+                out.append(path[s])
+                continue
+            tail = comp.get(tgt)
+            if tail is None:
+                continue
+            out.append(path[s] + [k] + tail)
+            if k == "TagLine":
+                for follow in ("ScenarioLine", "ExamplesLine", "RuleLine"):
+                    for noise in ([], ["Comment"], ["Empty", "TagLine"]):
+                        # what may follow the tag run in the target state
+                        nxt = [t for t in table.get(tgt, [[], [], 0])[0] if t[0] == follow]
+                        if nxt and nxt[0][3] in comp:
+                            out.append(path[s] + [k] + noise + [follow] + comp[nxt[0][3]])
+    return out
+
+
+def concretise(w):
+    lines = []
+    in_doc = False
+    for k in w:
+        if k == "DocStringSeparator":
+            in_doc = not in_doc
+        lines.append(S.CANON[k])
+    return "\n".join(lines) + ("\n" if lines else "")
+
+
+def search_c02(ctx):
+    impl = impl_mod()
+    walks = table_walks(S.n_for(6000, 60000), 14, "search/c02")
+    walks += list(S.kind_sequences(3)) + transition_cover()
+    seen = set()
+    uniq = []
+    for w in walks:
+        t = tuple(w)
+        if t not in seen:
+            seen.add(t)
+            uniq.append(w)
+    ires = run_impl_batch([("stub_run", [False, w]) for w in uniq])
+    mres = run_model([("ref_accepts", [w]) for w in uniq] + [("valid_events", [r["events"]]) for r in ires])
+    refs, valids = mres[:len(uniq)], mres[len(uniq):]
+
+    def bad(w):
+        r = impl.stub_run(False, w)
+        acc = "ok" in r and r["nerrs"] == 0
+        ref, valid = run_model([("ref_accepts", [w]), ("valid_events", [r["events"]])])
+        if acc != ref:
+            return "the generated parser %s a token sequence that %s a sentence of gherkin.berp" % (
+                "accepts" if acc else "rejects", "is not" if acc else "is")
+        if acc and valid is not True:
+            return "accepted, but the rule events reported to the builder are not a derivation of gherkin.berp"
+        return None
+    cands = []
+    for w, r, ref, valid in zip(uniq, ires, refs, valids):
+        acc = "ok" in r and r["nerrs"] == 0
+        if acc != ref or (acc and valid is not True):
+            cands.append(w)
+    if not cands:
+        return None
+    w = min(cands, key=len)
+    # shrink
+    changed = True
+    while changed:
+        changed = False
+        for i in range(len(w)):
+            c = w[:i] + w[i + 1:]
+            if bad(c):
+                w, changed = c, True
+                break
+    why = bad(w)
+    text = concretise(w)
+    real = impl.parse(False, "en", text)
+    return {"what": why, "kinds": w, "text": text, "real_parser_on_text": P.p_errors(real),
+            "request": ["stub_run", [False, w]], "oracle": "RefSem.accepts_ref / valid_events (extracted)"}
+
+
+P.PROPS["C02"]["search"] = search_c02
